@@ -106,8 +106,12 @@ def gen_ops(rng, net, n_ops):
         elif r < 0.8 and ps:
             ops.append(("dp", [int(x) for x in rng.choice(ps, 1)]))
         elif len(js) > 2:
-            a, b = (int(x) for x in rng.choice(js, 2, replace=False))
-            ops.append(("fu", a, [b]))
+            pick = [int(x) for x in rng.choice(js, min(len(js), int(rng.integers(2, 5))), replace=False)]
+            a, rest = pick[0], pick[1:]
+            if rng.random() < 0.35:
+                # the list of junctions to merge may name the survivor itself (a "station" given as a whole)
+                rest.insert(int(rng.integers(0, len(rest) + 1)), a)
+            ops.append(("fu", a, rest))
     return ops
 
 
